@@ -83,7 +83,8 @@ namespace verif
         bool capped{false};
         std::string cap_note;
         std::size_t max_samples{6};
-        std::size_t max_violations{12};
+        std::size_t max_violations{600};
+        bool overflow{false};   // more distinct violation signatures than can be recorded
 
         bool mine(std::uint64_t idx) const { return nshards <= 1 || (idx % nshards) == shard; }
         /** Round-robin ownership for sequentially generated cases. */
@@ -104,8 +105,11 @@ namespace verif
         {
             ++violation_count;
             if (signature.empty()) signature = message.substr(0, message.find('\n'));
+            // every DISTINCT signature is recorded (known-finding matching is per signature: a new one must never be crowded out by
+            // listed ones); repeats of a signature only while the list is short
             if (!violation_sigs.insert(signature).second && violations.size() >= 3) return;
             if (violations.size() < max_violations) violations.push_back({desc, message, signature});
+            else if (!overflow) { overflow = true; violations.push_back({desc, "more distinct violation signatures than the report holds; further ones are dropped: " + message, "violation list overflow"}); }
         }
     };
 }  // namespace verif
